@@ -232,6 +232,48 @@ def _inline_prefix_temps(fn: ast.FunctionDef):
                 blk[blk.index(st)] = ast.copy_location(ast.Pass(), st)
 
 
+CODEC_FUNCS = ("as_packed", "as_bytes")
+
+
+def _propagate_self_reads(fn: ast.FunctionDef):
+    """`length = self.length` ... `length | flags << 24`  ->  `self.length | self.flags << 24` in the
+    encoders the layout rules read (as_packed / as_bytes): a local bound once, at the top level of
+    the function, to an attribute chain rooted at `self` that the function does not store to is a
+    cached read; its uses are put back so that the layout is spelled over the object's fields."""
+    if fn.name not in CODEC_FUNCS:
+        return
+    stores, loads = _name_counts(fn)
+    stored_attrs = set()
+    for n in ast.walk(fn):
+        if isinstance(n, ast.Attribute) and isinstance(n.ctx, (ast.Store, ast.Del)):
+            stored_attrs.add(ast.unparse(n))
+        if isinstance(n, ast.Call) and isinstance(n.func, ast.Name) and n.func.id == "setattr":
+            return
+    for st in list(fn.body):
+        if not (isinstance(st, ast.Assign) and len(st.targets) == 1 and isinstance(st.targets[0], ast.Name)
+                and isinstance(st.value, ast.Attribute) and _pure_chain(st.value)):
+            continue
+        root = st.value
+        while isinstance(root, ast.Attribute):
+            root = root.value
+        t = st.targets[0].id
+        if not (isinstance(root, ast.Name) and root.id == "self") or stores.get(t) != 1:
+            continue
+        txt = ast.unparse(st.value)
+        if any(s_ == txt or s_.startswith(txt + ".") or txt.startswith(s_ + ".") for s_ in stored_attrs):
+            continue
+
+        class Sub(ast.NodeTransformer):
+            def visit_Name(self, node):
+                if node.id == t and isinstance(node.ctx, ast.Load):
+                    return ast.copy_location(copy.deepcopy(st.value), node)
+                return node
+        for other in fn.body:
+            if other is not st:
+                Sub().visit(other)
+        fn.body[fn.body.index(st)] = ast.copy_location(ast.Pass(), st)
+
+
 def normalize_tree(tree: ast.Module):
     """Local canonical forms (no cross-module knowledge needed)."""
     for fn in _functions(tree):
@@ -241,6 +283,7 @@ def normalize_tree(tree: ast.Module):
             _inline_return_temps(f_)
             _with_for_acquire(f_)
             _inline_prefix_temps(f_)
+            _propagate_self_reads(f_)
         ast.fix_missing_locations(fn)
 
 
